@@ -152,8 +152,10 @@ def encrypt_first_assertion(xml, cert_name):
     out = os.path.join(_tmp, "e-out-%d.xml" % os.getpid())
     with open(src, "w", encoding="utf-8") as f:
         f.write(xml)
+    # xs:ID values must be unique in the document (the Response may carry several encrypted assertions)
+    n = xml.count("<xenc:EncryptedData") + xml.count(":EncryptedData ") + 1
     with open(tpl, "w", encoding="utf-8") as f:
-        f.write(ENC_TEMPLATE)
+        f.write(ENC_TEMPLATE.replace('"ED_1"', '"ED_%d"' % n).replace('"EK_1"', '"EK_%d"' % n))
     xp = "".join('/*[local-name()="%s"]' % n for n in ("Response", "EncryptedAssertion", "Assertion"))
     _run(["--encrypt", "--pubkey-cert-pem", S.cert_path(cert_name), "--session-key", "des-192", "--xml-data", src,
           "--node-xpath", xp, "--output", out, tpl])
@@ -273,6 +275,10 @@ def sp_for(cfg):
         acs = [(S.SP_ACS_POST, S.BINDING_POST)] if cfg["endpoints"] == "post_only" else [(S.SP_ACS_REDIRECT, S.BINDING_REDIRECT)]
         spopts["endpoints"] = {"assertion_consumer_service": acs,
                                "single_logout_service": [(S.SP_SLO_REDIRECT, S.BINDING_REDIRECT)]}
+    if cfg.get("endpoints") == "indexed":
+        # consumer endpoints configured as indexed 3-tuples (url, binding, index)
+        spopts["endpoints"] = {"assertion_consumer_service": [(S.SP_ACS_POST, S.BINDING_POST, 1), (S.SP_ACS_REDIRECT, S.BINDING_REDIRECT, 2)],
+                               "single_logout_service": [(S.SP_SLO_REDIRECT, S.BINDING_REDIRECT)]}
     conf = S.sp_config(sp=spopts, **extra)
     sp = S.make_sp(conf)
     if len(_sp_cache) > 64:
@@ -303,6 +309,21 @@ def run_sp(case):
 
     sp.users = Population(Cache())  # fresh identity cache per case
     before = _snapshot(sp)
+    if env.get("kind") == "attr":
+        # an attribute-query answer: Saml2Client.parse_attribute_query_response (always SOAP, no outstanding set,
+        # no conversation information)
+        with S.clock(env["now"]):
+            try:
+                r = sp.parse_attribute_query_response(pack(xml, "soap"), BINDINGS["soap"])
+            except Exception as e:
+                return {"r": "rejected", "err": type(e).__name__, "cached": _snapshot(sp) != before}
+        if r is None:
+            return {"r": "none", "cached": False}
+        name_id = r.name_id.text if getattr(r, "name_id", None) is not None else None
+        if name_id is None and not r.ava:
+            return {"r": "none", "cached": False}
+        return {"r": "identity", "name_id": name_id, "issuer": r.issuer(), "came_from": None,
+                "not_on_or_after": r.not_on_or_after, "session_index": None, "cached": _snapshot(sp) != before}
     with S.clock(env["now"]):
         try:
             r = sp.parse_authn_request_response(msg, BINDINGS[binding], outstanding, conv_info=conv)
